@@ -310,7 +310,9 @@ def add_slide(ctx, master, layout, where):
     from vlib import xsdkit
 
     acc, prs = ctx.acc, ctx.prs
-    before = [(s.part, s.part.blob) for s in prs.slides]
+    ok, before = ctx.api("slides-raises", lambda: [(s.part, s.part.blob) for s in prs.slides])  # "any deck": its slides can be listed
+    if not ok:
+        return
     lay_recs, mas_recs = ph_records(layout._element), ph_records(master._element)
     ok, slide = ctx.api("add_slide-raises", prs.slides.add_slide, layout)
     if not ok:
